@@ -135,12 +135,25 @@ func NewStream(conn net.Conn) *Stream {
 	}
 }
 
+// abortCancelled is the entry-check counterpart of the AfterFunc watcher below: an
+// operation that finds its context already cancelled closes the connection before
+// reporting the context's error, exactly as a cancellation that lands while the
+// I/O is in flight does. A multi-step exchange (the body after a frame header,
+// the next message of a handshake) whose context is cancelled BETWEEN two steps
+// would otherwise return with the connection open but mid-frame / mid-protocol.
+func (s *Stream) abortCancelled(err error) error {
+	if s.conn != nil {
+		_ = s.conn.Close()
+	}
+	return err
+}
+
 // writeWithContext performs a write operation with context cancellation support.
 // It runs the write in a goroutine and monitors the context for cancellation.
 // If the context is cancelled, it closes the connection to interrupt the write.
 func (s *Stream) writeWithContext(ctx context.Context, data []byte) error {
-	if ctx.Err() != nil {
-		return ctx.Err()
+	if err := ctx.Err(); err != nil {
+		return s.abortCancelled(err)
 	}
 
 	// Fast path: a context that can never be cancelled -- context.Background()/
@@ -182,8 +195,8 @@ func (s *Stream) writeWithContext(ctx context.Context, data []byte) error {
 // readWithContext performs a read operation with context cancellation support.
 // If the context is cancelled it closes the connection to interrupt the read.
 func (s *Stream) readWithContext(ctx context.Context, data []byte) error {
-	if ctx.Err() != nil {
-		return ctx.Err()
+	if err := ctx.Err(); err != nil {
+		return s.abortCancelled(err)
 	}
 
 	// Fast path: a non-cancellable context (Done() == nil) needs no watcher; read
